@@ -1,5 +1,7 @@
 """C12 - concurrent callers never disable each other's checks."""
+import asyncio
 import contextvars
+import os
 from typing import Any, Dict, List, Optional, Tuple
 
 import icontract
@@ -15,11 +17,14 @@ class World:
         self.shape = shape
         self.log = []  # type: List[Tuple[Any, ...]]
         self.hook = None  # type: Any
+        #: awaitable factory used at every suspension point: ``Suspend()`` when the coroutines are stepped by hand, a
+        #: turnstile wait when the calls run as tasks of a real asyncio event loop (replay)
+        self.susp = lambda who: Suspend()  # type: Any
         w = self
 
         async def apre(x: Any) -> Any:
             w.log.append(("pre", x[0]))
-            await Suspend()
+            await w.susp(x[0])
             return x[1]
 
         def spre(x: Any) -> Any:
@@ -37,8 +42,8 @@ class World:
         if shape == "afunc":
             async def h(x: Any) -> Any:
                 w.log.append(("body", x[0]))
-                await Suspend()
-                await Suspend()
+                await w.susp(x[0])
+                await w.susp(x[0])
                 return ("res", x[0])
             f = icontract.ensure(lambda result, x: w.log.append(("post", x[0])) or True, error=lambda: Tag("post"))(h)
             self.fn = icontract.require(apre, error=lambda x: Tag(("pre", x[0])))(f)
@@ -51,8 +56,8 @@ class World:
         elif shape == "amethod":
             async def m(self: Any, x: Any) -> Any:
                 w.log.append(("body", x[0]))
-                await Suspend()
-                await Suspend()
+                await w.susp(x[0])
+                await w.susp(x[0])
                 return ("res", x[0])
             m.__name__ = "m"
             m2 = icontract.require(apre, error=lambda x: Tag(("pre", x[0])))(m)
@@ -94,6 +99,80 @@ def _contexts(w: World, mode: int, n: int) -> List[contextvars.Context]:
     return [parent.run(contextvars.copy_context) for _ in range(n)]
 
 
+class Turnstile:
+    """Forces a given interleaving on a REAL asyncio event loop: a task proceeds past a suspension point only when it is
+    its turn; the controller hands out the turns in the order of the schedule."""
+
+    def __init__(self, n: int) -> None:
+        self.turn = -1
+        self.cond = asyncio.Condition()
+        self.waiting = [False] * n
+        self.done = [False] * n
+
+    async def arrive(self, who: int) -> None:
+        async with self.cond:
+            self.waiting[who] = True
+            self.cond.notify_all()
+            await self.cond.wait_for(lambda: self.turn == who)
+            self.turn = -1
+            self.waiting[who] = False
+
+
+def run_on_real_loop(w: World, ncalls: int, mode: int, sched: List[int], valid: List[Any]) -> List[Any]:
+    """The same scenario with asyncio tasks on a real event loop (used by replays, not under CrossHair)."""
+    outcome = [None] * ncalls  # type: List[Any]
+
+    async def main() -> None:
+        ts = Turnstile(ncalls)
+        w.susp = lambda who: ts.arrive(who)
+
+        async def one(i: int) -> None:
+            await ts.arrive(i)  # every call starts at the turnstile so that the controller decides who runs first
+            try:
+                outcome[i] = ("ret", await w.call((i, valid[i])))
+            except Tag as err:
+                outcome[i] = ("violation", err.label)
+            async with ts.cond:
+                ts.done[i] = True
+                ts.cond.notify_all()
+
+        if mode == 2:
+            r = w.warm()  # the parent task executes contracted code before it creates the tasks
+            if asyncio.iscoroutine(r):
+                await r
+        tasks = []
+        for i in range(ncalls):
+            if mode == 0:
+                tasks.append(asyncio.get_running_loop().create_task(one(i), context=contextvars.Context()))
+            else:
+                tasks.append(asyncio.create_task(one(i)))  # copies the parent's context, as asyncio always does
+        step = 0
+        while not all(ts.done):
+            async with ts.cond:
+                await ts.cond.wait_for(lambda: all(ts.waiting[i] or ts.done[i] for i in range(ncalls)))
+                runnable = [i for i in range(ncalls) if not ts.done[i]]
+                if not runnable:
+                    break
+                if len(runnable) == 1:
+                    pick = runnable[0]
+                else:
+                    choice = sched[step] if step < len(sched) else 0
+                    step += 1
+                    pick = runnable[choice % len(runnable)]
+                ts.waiting[pick] = False
+                ts.turn = pick
+                ts.cond.notify_all()
+            async with ts.cond:
+                await ts.cond.wait_for(lambda: ts.waiting[pick] or ts.done[pick])
+        await asyncio.gather(*tasks)
+
+    try:
+        asyncio.run(main())
+    finally:
+        w.susp = lambda who: Suspend()
+    return outcome
+
+
 def run_sched(shape: str, ncalls: int, mode: int, s0: int, s1: int, s2: int, s3: int, s4: int, s5: int, s6: int, s7: int,
               s8: int, v0: bool, v1: bool, v2: bool) -> Tuple[bool, bool]:
     """Interleave ncalls concurrent async calls under the symbolic schedule s0..s8."""
@@ -106,6 +185,22 @@ def run_sched(shape: str, ncalls: int, mode: int, s0: int, s1: int, s2: int, s3:
     del w.log[:]
     w.hook = None
     valid = [v0, v1, v2][:ncalls]
+    if os.environ.get("VERIF_REAL_LOOP") == "1":
+        # replay mode: asyncio tasks on a real event loop, interleavings forced by a turnstile.  The step numbering of the
+        # real loop differs from the hand-stepped model (every task first arrives at the turnstile), so all schedules of
+        # the same length are tried for the same context mode and inputs; any failing one reproduces the violation.
+        import itertools
+        ok_r = True
+        for sched_c in itertools.product(range(ncalls), repeat=6 if ncalls == 2 else 5):
+            outcome_r = run_on_real_loop(w, ncalls, mode, list(sched_c), valid)
+            for i in range(ncalls):
+                want = ("ret", ("res", i)) if valid[i] else ("violation", ("pre", i))
+                if outcome_r[i] != want:
+                    ok_r = False
+            if not ok_r:
+                print("real asyncio loop: schedule {} gives {}".format(sched_c, outcome_r))
+                break
+        return ok_r, True
     ctxs = _contexts(w, mode, ncalls)
     coros = [ctxs[i].run(w.call, (i, valid[i])) for i in range(ncalls)]
     outcome = [None] * ncalls  # type: List[Any]
@@ -225,6 +320,7 @@ def harnesses(tier: str) -> List[H]:
                 name = "sched_{}_{}calls_{}".format(shape, ncalls, MODES[mode])
                 out.append(H(name, bind(run_sched, (shape, ncalls), ALL, defaults, [p.name for p in params]), params,
                              tiers=(tier,), timeout=900 if tier == "quick" else 3600,
+                             replay_env={"VERIF_REAL_LOOP": "1"},
                              family="{} concurrent calls of one contracted {} (awaiting precondition, body suspending twice, "
                                     "postcondition); every interleaving of their suspension points under {} schedule choices; "
                                     "context mode {}; each call valid or violating".format(
